@@ -180,11 +180,20 @@ func cmdCheck(args []string) {
 	tier := fs.String("tier", "quick", "quick|thorough")
 	rebase := fs.Bool("rebase", false, "rewrite the baseline of claimed obligations from this run")
 	verbose := fs.Bool("v", false, "")
+	out := fs.String("out", "", "output directory for evidence/replays (default: root)")
 	fs.Parse(args)
+	outDir = *out
 	os.Exit(runCheck(*repo, *root, *prop, *tier, *rebase, *verbose))
 }
 
+var repoDir = "/repo"
+var outDir = ""
+
 func runCheck(repo, root, prop, tier string, rebase, verbose bool) int {
+	repoDir = repo
+	if outDir == "" {
+		outDir = root
+	}
 	t0 := time.Now()
 	seed, _ := strconv.Atoi(os.Getenv("VERIF_SEED"))
 	if t := os.Getenv("VERIF_TIER"); t != "" && tier == "" {
@@ -423,7 +432,7 @@ func report(root, prop, tier string, seed int, cfg *PropConfig, runs []*unitRun,
 		claimedIDs = append(claimedIDs, id)
 	}
 	sort.Strings(claimedIDs)
-	replayDir := filepath.Join(root, "replays", prop)
+	replayDir := filepath.Join(outDir, "replays", prop)
 	for _, id := range claimedIDs {
 		claimed++
 		r, ok := res[id]
@@ -579,9 +588,9 @@ func report(root, prop, tier string, seed int, cfg *PropConfig, runs []*unitRun,
 		"bounded":                  []string{},
 	}
 	ev := Evidence{PropertyID: prop, Tier: tier, Seed: seed, Level: "proof", Coverage: cov, Assumptions: assumptions, WallS: time.Since(t0).Seconds(), Violations: len(violations)}
-	os.MkdirAll(filepath.Join(root, "evidence"), 0o755)
+	os.MkdirAll(filepath.Join(outDir, "evidence"), 0o755)
 	data, _ := json.MarshalIndent(ev, "", " ")
-	os.WriteFile(filepath.Join(root, "evidence", prop+".json"), append(data, '\n'), 0o644)
+	os.WriteFile(filepath.Join(outDir, "evidence", prop+".json"), append(data, '\n'), 0o644)
 	fmt.Printf("%s %s: %d units, %d paths, claimed %d, discharged %d, violations %d, unclaimed-failing %d, new-discharged %d, %.1fs\n",
 		prop, tier, len(runs), totalPaths, claimed, discharged, len(violations), len(unclaimed), len(undecidedNew), time.Since(t0).Seconds())
 	if verbose {
@@ -611,6 +620,8 @@ func report(root, prop, tier string, seed int, cfg *PropConfig, runs []*unitRun,
 }
 
 var clauseOblRe = regexp.MustCompile(` / (post|inv-preserved|inv-established|inv-init|inv-step|variant|frame|assert@[^ ]+) / `)
+
+func regexpCompile(s string) (*regexp.Regexp, error) { return regexp.Compile(s) }
 
 func isClauseObl(id string) bool { return clauseOblRe.MatchString(id) }
 
